@@ -61,7 +61,12 @@ def selftest(pid, only=None, check_tests=False):
             continue
         root = scratch_copy()
         try:
-            apply_edit(root, m)
+            try:
+                apply_edit(root, m)
+            except RuntimeError as e:
+                print('%-8s %-55s exit=2 HARNESS-ERROR %s' % (pid, m['name'], e))
+                results.append((m['name'], 2, [], None))
+                continue
             tests_ok = None
             if check_tests:
                 tests_ok, _ = repo_tests_pass(root)
